@@ -1014,6 +1014,12 @@ QByteArray QXmppStunMessage::encode(const QByteArray &key, bool addFingerprint) 
         stream << fingerprint;
     }
 
+    // attribute and message lengths are 16-bit fields: a larger message cannot be represented
+    if (buffer.size() - STUN_HEADER > 0xffff) {
+        qWarning("Cannot encode STUN message: %d bytes of attributes exceed the 16-bit length field", int(buffer.size() - STUN_HEADER));
+        return QByteArray();
+    }
+
     return buffer;
 }
 
